@@ -6,7 +6,7 @@ from .. import tlc
 from . import covar
 
 LEVEL = "exploration"
-TN = {"one": [2.1, 2.15], "two": [0.92, 0.93]}
+TN = {"one": [2.1, 2.15], "two": [0.92, 0.93], "three": [0.92, 0.93]}
 
 
 def jobs(tier):
@@ -14,7 +14,7 @@ def jobs(tier):
     js = [j for j in tlc.json_lines(res["out"]) if j["kind"] == "units"]
     out = []
     for j in js:
-        if tier == "quick" and not (j["model"] == "one" and j["setting"] == "default"):
+        if tier == "quick" and not (j["model"] in ("one", "three") and j["setting"] == "default"):
             continue
         scales = [0, -2, 2] if tier == "quick" else [0, -2, -1, 1, 2]
         for tn in (TN[j["model"]][:1] if tier == "quick" else TN[j["model"]]):
@@ -22,6 +22,8 @@ def jobs(tier):
             # (the factor 1e-2 then takes Tn below 0.01, where un-rescaled absolute thresholds bite)
             for base in (1.0, 0.004):
                 if base != 1.0 and not (tn == TN[j["model"]][0] and j["setting"] == "default"):
+                    continue
+                if j["model"] == "three" and (tier == "quick" and base != 1.0 or j["setting"] == "tight" and tn != TN["three"][0]):
                     continue
                 out.append(dict(j, tn=tn, scales=scales, base=base))
     return res, out
@@ -45,7 +47,7 @@ def run(chk, tier, seed):
     vr = tlc.validate("TraceCovariance.tla", "TraceCovariance_C07.cfg", traces)
     chk.add_validation(vr, traces)
     chk.extra.update(pipeline_runs=len(reps), checker_cmd="tlc Covariance.tla ; tlc TraceCovariance.tla (PROP=C07)")
-    chk.rule = ("runs = polynomial model (one-/two-field, phases existing over the whole traced range) x nucleation temperature x settings (default; "
+    chk.rule = ("runs = polynomial model (one-/two-/three-field, phases existing over the whole traced range) x nucleation temperature x settings (default; "
                 "errTol 1e-4 + phaseTracerTol 1e-8) x natural unit system (temperatures of order 100 / of order 1) x unit factor in {1e-2,1e-1,1,10,1e2} (quick: 1, 1e-2, 1e2): full pipeline setup, LTE speed, solveWall in LTE mode")
     chk.assumptions += ["every dimensionful input (field values, temperatures, mass parameters, variation scales) multiplied by the factor; couplings dimensionless"]
 
